@@ -90,6 +90,8 @@ var accepted = map[string]string{
 	"ToAny": "$+,(=#:%*~",
 }
 
+var viaToString = map[string]bool{"ToString": true, "AsReader": true, "AsBytes": true, "DecodeJSON": true, "AsInt64": true, "AsUint64": true, "AsFloat64": true}
+
 func run(ci any) (res obs.Result) {
 	c := ci.(Case)
 	raw, _ := json.Marshal(c)
@@ -171,12 +173,13 @@ func run(ci any) (res obs.Result) {
 		// (4) wrong shape => parse error
 		if acc, ok := accepted[a.Name]; ok && !topNil && !topErr && !strings.ContainsRune(acc, rune(t.T)) {
 			if o.Kind != "EParse" {
-				class := "wrong-shape"
-				// known: ToString (and what is built on it) treats every scalar that is not an integer as a string
-				if t.K != "a" && (t.T == '#' || t.T == '.') && strings.ContainsRune(stringBodied, rune(accepted[a.Name][len(accepted[a.Name])-1])) && a.Name != "ToAny" && a.Name != "ToFloat64" {
-					class = "wrong-shape-scalar-as-string"
+				class, site := "wrong-shape", a.Name
+				// known finding: ToString (and what is built on it) treats every scalar that is neither an integer nor
+				// nil / error as a string, so a boolean or end-marker reply reads as ""
+				if t.K != "a" && (t.T == '#' || t.T == '.') && viaToString[a.Name] {
+					class, site = "wrong-shape-scalar-as-string", "ToString"
 				}
-				fail(a.Name, class, "%s on a reply of type %q returned %s instead of a parse error", a.Name, string(rune(t.T)), o.Kind)
+				fail(site, class, "%s on a reply of type %q returned %s instead of a parse error", a.Name, string(rune(t.T)), o.Kind)
 			}
 		}
 	}
